@@ -1,6 +1,6 @@
 import QuantemModel.Core.Proto
-import QuantemModel.Model.Forward
-open Lean QuantemModel QuantemModel.Proto QuantemModel.PtychoOps QuantemModel.Forward
+import QuantemModel.Model.ForwardState
+open Lean QuantemModel QuantemModel.Proto QuantemModel.PtychoOps QuantemModel.Forward QuantemModel.ForwardState
 
 /-! JSON-lines driver for Model/Forward.lean.  Floats cross as IEEE bit patterns, exact rationals
 as "num/den" strings.  complex image = {"re": [[bits]], "im": [[bits]]}; real image = [[bits]];
@@ -82,6 +82,77 @@ def comFitOfString : String → Except String ComFit
   | "no_shift" => pure .noShift
   | "constant" => pure .constant
   | s => throw s!"unknown fit {s}"
+
+/-! state machines of Model/ForwardState.lean -/
+def thickArgOfJson (j : Json) : Except String (ThickArg Float) := do
+  match (← strField j "form") with
+  | "none" => pure .none
+  | "scalar" => pure (.scalar (← fl j "value"))
+  | "seq" => pure (.seq (← floatList (← field j "value")))
+  | f => throw s!"unknown thickness form {f}"
+
+def thickOpOfJson (j : Json) : Except String (ThickOp Float) := do
+  match (← strField j "kind") with
+  | "ptycho" => pure (.assignPtycho (← thickArgOfJson j))
+  | "obj" => pure (.assignObj (← thickArgOfJson j))
+  | "rebuild" => pure .rebuild
+  | k => throw s!"unknown thickness op {k}"
+
+/-- trace with the propagators: after every call `(raised, thicknesses, propagators)` -/
+def slabTrace (g : PropGeom Float) : Slab Float → List (ThickOp Float) → List Json
+  | _, [] => []
+  | s, op :: ops =>
+    let r := s.step g op
+    Json.mkObj [("raised", Json.bool r.2), ("thick", Json.arr (r.1.thick.map floatToJson).toArray),
+                ("props", imgsToJson r.1.props)] :: slabTrace g r.1 ops
+
+def stackNameOfString : String → Except String StackName
+  | "centered_amplitudes" => pure .centredAmp
+  | "amplitudes" => pure .amp
+  | "centered_intensities" => pure .centredInt
+  | "intensities" => pure .int
+  | s => throw s!"unknown stack {s}"
+
+def stacksOfJson (j : Json) : Except String (Stacks Nat) := do
+  pure { centredAmp := ← natField j "centered_amplitudes", amp := ← natField j "amplitudes",
+         centredInt := ← natField j "centered_intensities", int := ← natField j "intensities" }
+
+/-- `"amplitude" in loss_type`, else `"intensity" in loss_type or loss_type == "poisson"` — evaluated on the
+string itself, as `_set_targets` does -/
+def hasSub (s sub : String) : Bool := (s.splitOn sub).length > 1
+def lossFamilyOfString (s : String) : LossFamily :=
+  if hasSub s "amplitude" then .amplitude
+  else if hasSub s "intensity" || s == "poisson" then .intensity
+  else .unknown
+
+def tOpOfJson (j : Json) : Except String (TOp Nat) := do
+  match (← strField j "kind") with
+  | "preprocess" => pure (.preprocess (← stacksOfJson (← field j "stacks")))
+  | "preprocess_rejected" => pure .preprocessRejected
+  | "set_targets" => pure (.setTargets (lossFamilyOfString (← strField j "loss_type")))
+  | "assign_stack" => pure (.assignStack (← stackNameOfString (← strField j "name")) (← natField j "id") (← boolField j "ok"))
+  | "set_fit_descan" => pure (.setFitDescan (← boolField j "value"))
+  | k => throw s!"unknown targets op {k}"
+
+def posOpOfJson (j : Json) : Except String PosOp := do
+  match (← strField j "kind") with
+  | "assign" => pure (.assign (← positionsOfJson (← field j "positions")))
+  | "assign_bad_shape" => pure (.assignBadShape (← natField j "rows"))
+  | "forward" => pure .forward
+  | "refresh" => pure .refresh
+  | k => throw s!"unknown position op {k}"
+
+def posJson (ps : List (Rat × Rat)) : Json := Json.arr (ps.map fun p => Json.arr #[ratToJson p.1, ratToJson p.2]).toArray
+def idxJson (idx : List (List (List Nat))) : Json :=
+  Json.arr (idx.map fun m => Json.arr (m.map fun r => Json.arr (r.map natJ).toArray).toArray).toArray
+
+def posTrace : PosState → List PosOp → List Json
+  | _, [] => []
+  | s, op :: ops =>
+    let r := s.step op
+    let o := r.1.observe
+    Json.mkObj [("raised", Json.bool r.2), ("pos", posJson r.1.pos), ("frac", posJson o.2), ("idx", idxJson o.1)]
+      :: posTrace r.1 ops
 
 def step (st : Unit) (j : Json) : Unit × Json :=
   match (do
@@ -166,6 +237,32 @@ def step (st : Unit) (j : Json) : Unit × Json :=
         let mask ← rowsOfJson (← field j "mask")
         let n ← natField j "num_gpts"
         pure (okJson (floatToJson (lossBatch lt preds targets mask n (← fl j "mean_intensity"))))
+    | "thick_history" =>
+        let n ← natField j "num_slices"
+        let g : PropGeom Float := { nr := ← natField j "R0", nc := ← natField j "R1", sr := ← fl j "dr", sc := ← fl j "dc", energy := ← fl j "energy" }
+        let th ← floatList (← field j "thick")
+        let ops ← (← arrField j "ops").toList.mapM thickOpOfJson
+        let s0 : Slab Float := { numSlices := n, thick := th, props := g.build n th }
+        pure (okJson (Json.arr (slabTrace g s0 ops).toArray))
+    | "thick_value" =>
+        let n ← natField j "num_slices"
+        match thickValue n (← thickArgOfJson j) with
+        | .ok th => pure (okJson (Json.mkObj [("stored", Json.arr (th.map floatToJson).toArray)]))
+        | .error e => pure (okJson (Json.mkObj [("raises", Json.str e)]))
+    | "targets_history" =>
+        let st ← stacksOfJson (← field j "stacks")
+        let ops ← (← arrField j "ops").toList.mapM tOpOfJson
+        let s0 : TState Nat := { stacks := st, targets := ← natField j "targets", fitDescan := ← boolField j "fit_descan" }
+        pure (okJson (Json.arr ((s0.trace ops).map fun r => Json.mkObj [("raised", Json.bool r.1), ("targets", natJ r.2)]).toArray))
+    | "index_history" =>
+        let pos ← positionsOfJson (← field j "positions")
+        let H ← natField j "H"
+        let W ← natField j "W"
+        let R0 ← natField j "R0"
+        let R1 ← natField j "R1"
+        let ops ← (← arrField j "ops").toList.mapM posOpOfJson
+        let s0 : PosState := { H := H, W := W, R0 := R0, R1 := R1, n := pos.length, pos := pos, last := pos, idx := indicesOf H W R0 R1 pos }
+        pure (okJson (Json.arr (posTrace s0 ops).toArray))
     | _ => throw s!"unknown op {op}" : Except String Json) with
   | .ok r => (st, r)
   | .error e => (st, errJson s!"driver:{e}")
